@@ -294,7 +294,7 @@ def run_path(contract, c, state):
     if contract.kind == "lemma":
         contract.body()
         return "ok"
-    f = find_function(contract.owner, contract.name)
+    f = state.get("self_real") or find_function(contract.owner, contract.name)
     # ---- pre-state
     if contract.kind == "ctor":
         selfv = new_object(contract.owner)
@@ -451,6 +451,10 @@ def run_task(contract, timeout_s=600, keep_smt=0, dry=False):
     old_handler = signal.signal(signal.SIGALRM, on_alarm)
     signal.alarm(int(timeout_s))
     try:
+        if any(o is contract.owner and n == contract.name for (o, n) in contract.uses):
+            # recursion through the function's own contract (partial correctness): the TASK runs the real body, only
+            # the nested calls go to the stub (without this the stub would be verified against itself - vacuous)
+            state["self_real"] = find_function(contract.owner, contract.name)
         for (o, n) in contract.uses:
             cc = _spec.CONTRACTS.get((o, n))
             if cc is None:
